@@ -47,6 +47,11 @@ LibValues == [a |-> 2001, c |-> 2002, A |-> 2003, C |-> 2004, k |-> 2005]   \* p
 LibPrivate == {"p"}
 LibModule == 2000                       \* the module itself (target of an accessor)
 ImportForms == {"none", "plain", "alias", "unq", "unqalias"}
+\* m1 may declare one record type  `type T { T ( a : Int , b : Int ) }`: the type T and the constructor T
+\* share a spelling but live in different namespaces; the fields are spelled like the value names.  (One variant
+\* only: Gleam allows `.a` just for fields common to all variants.)
+\* ids: type = ItemBase + i, constructor T = +100, field a = +300, field b = +400
+CtorT == 100  CtorU == 200  FieldA == 300  FieldB == 400
 
 VARIABLES todo, out, frames, pending, budget, imp, items, phase
 vars == <<todo, out, frames, pending, budget, imp, items, phase>>
@@ -80,12 +85,17 @@ Imported(name) ==
     IF imp = "unq" /\ name = "c" THEN LibValues.c
     ELSE IF imp = "unqalias" /\ name = "d" THEN LibValues.c
     ELSE 0
-ModuleValue(name) == IF ItemId(name) # 0 THEN ItemId(name) ELSE Imported(name)
+TypeItem == LET idx == {i \in 1..Len(items) : items[i].k = "type"} IN IF idx = {} THEN 0 ELSE CHOOSE i \in idx : TRUE
+HasType  == TypeItem # 0
+TypeBase == ItemBase + TypeItem
+\* constructors are values of the module scope; the type itself is in the type namespace only
+CtorId(name) == IF ~HasType THEN 0 ELSE IF name = "T" THEN TypeBase + CtorT ELSE 0
+ModuleValue(name) == IF ItemId(name) # 0 THEN ItemId(name) ELSE IF CtorId(name) # 0 THEN CtorId(name) ELSE Imported(name)
 
 Resolve(name) == IF Local(name) # 0 THEN Local(name) ELSE ModuleValue(name)
 
 RefNames == Names \cup (IF imp = "unq" THEN {"c"} ELSE IF imp = "unqalias" THEN {"d", "c"} ELSE {"c"})
-Visible  == {n \in Names \cup SpareNames \cup {"c", "d"} : Resolve(n) # 0}
+Visible  == {n \in Names \cup SpareNames \cup {"c", "d", "T"} : Resolve(n) # 0}
 Accessor == IF imp = "plain" THEN "m2" ELSE IF imp = "alias" THEN "q" ELSE ""
 
 \* pop frames down to and including the innermost mark
@@ -122,7 +132,12 @@ Prods(h) ==
            P(1, "list", <<OPEN("LIST"), T("["), NT("EXPR"), T(","), NT("EXPR"), T("]"), CLOSE>>),
            P(1, "tuple", <<OPEN("TUPLE"), T("#"), T("("), NT("EXPR"), T(","), NT("EXPR"), T(")"), CLOSE>>),
            P(1, "qualified", <<NT("QUALIFIED")>>),
-           P(1, "ctor", <<NT("CTOR")>>) }
+           P(1, "ctor", <<NT("CTOR")>>),
+           \* the module's own record type (only when it is declared)
+           P(1, "own_ctor_labelled", <<NT("NEEDTYPE"), OPEN("EXPR_CALL"), Sym("OWNCTOR", "T", 0), T("("), Sym("LABEL", "b", 0), T(":"), NT("EXPR"), T(","),
+                                      Sym("LABEL", "a", 0), T(":"), NT("EXPR"), T(")"), CLOSE>>),
+           P(1, "own_field", <<NT("NEEDTYPE"), OPEN("FIELD_ACCESS"), OPEN("EXPR_CALL"), Sym("OWNCTOR", "T", 0), T("("), T("1"), T(","), NT("EXPR"), T(")"), CLOSE,
+                               T("."), Sym("FIELDREF", "a", 0), CLOSE>>) }
     [] h.s = "EXPR0" ->            \* operand position: atoms only
          { P(0, "lit", <<T("1")>>), P(0, "ref", <<NT("REF")>>), P(1, "call", <<NT("CALL")>>) }
     [] h.s = "CALL" ->
@@ -146,7 +161,9 @@ Prods(h) ==
            P(1, "ptuple", <<T("#"), T("("), NT("PAT"), T(","), NT("PAT"), T(")")>>),
            P(1, "plist", <<T("["), NT("PAT"), T(","), T(".."), NT("SPREADBINDER"), T("]")>>),
            P(1, "pctor", <<NT("PCTOR"), T("("), NT("PAT"), T(")")>>),
-           P(1, "pconcat", <<T("\"s\""), T("<>"), NT("BINDER")>>) }
+           P(1, "pconcat", <<T("\"s\""), T("<>"), NT("BINDER")>>),
+           P(1, "p_own_ctor", <<NT("NEEDTYPE"), Sym("OWNCTOR", "T", 1), T("("), Sym("LABEL", "a", 1), T(":"), NT("PAT"), T(","), T(".."), T(")")>>),
+           P(1, "p_own_ctor_pos", <<NT("NEEDTYPE"), Sym("OWNCTOR", "T", 1), T("("), NT("PAT"), T(","), NT("PAT"), T(")")>>) }
     [] OTHER -> {}
 
 -----------------------------------------------------------------------------
@@ -160,8 +177,9 @@ Init == /\ todo = <<>> /\ out = <<>> /\ frames = <<>> /\ pending = <<>> /\ budge
 Pick(S) == IF Sim /\ S # {} THEN {RandomElement(S)} ELSE S
 
 \* module header: choose the import form and the top-level items (kinds and distinct names) up front
-ItemLists == UNION {[1..k -> [k : {"fn", "const"}, n : Names]] : k \in 1..MaxItems}
-DistinctNames(l) == \A i, j \in 1..Len(l) : i # j => l[i].n # l[j].n
+ItemLists == UNION {[1..k -> [k : {"fn", "const"}, n : Names] \cup {[k |-> "type", n |-> "T"]}] : k \in 1..MaxItems}
+DistinctNames(l) == /\ \A i, j \in 1..Len(l) : i # j => l[i].n # l[j].n
+                    /\ "type" \notin Masked \/ \A i \in 1..Len(l) : l[i].k # "type"
 Header == /\ phase = "header"
           /\ \E f \in Pick(ImportForms \ Masked), l \in Pick({l \in ItemLists : DistinctNames(l) /\ l[1].k = "fn"}) :
                /\ imp' = f /\ items' = l
@@ -191,14 +209,28 @@ Step ==
             /\ todo' = (IF h.x = "fn"
                         THEN <<OPEN("FUNCTION"), T("fn"), Sym("ITEMNAME", items[h.n].n, h.n), T("("), NT("MARK"), NT("PATSTART"), NT("PARAMS"),
                                NT("COMMIT"), T(")"), T("{"), NT("STMTS"), T("}"), NT("POPMARK"), CLOSE>>
+                        ELSE IF h.x = "type"
+                        THEN <<OPEN("ADT"), T("type"), Sym("ITEMNAME", "T", h.n), T("{"),
+                               Sym("DECL", "T", CtorT), T("("), Sym("DECL", "a", FieldA), T(":"), T("Int"), T(","), Sym("DECL", "b", FieldB), T(":"), T("Int"), T(")"), T("}"), CLOSE>>
                         ELSE <<OPEN("MODULE_CONSTANT"), T("const"), Sym("ITEMNAME", items[h.n].n, h.n), T("="), T("1"), CLOSE>>) \o Rest
             /\ UNCHANGED <<out, frames, pending, budget>>
        [] h.s = "ITEMNAME" ->
             /\ Emit(Tok(h.x, "def", ItemBase + h.n, {})) /\ todo' = Rest /\ UNCHANGED <<frames, pending, budget>>
        [] h.s = "PARAMS" ->
-            \E k \in Pick({0, 1, 2}) :
-               /\ todo' = (CASE k = 0 -> <<>> [] k = 1 -> <<NT("BINDER")>> [] k = 2 -> <<NT("BINDER"), T(","), NT("BINDER")>>) \o Rest
+            \E k \in Pick({0, 1, 2} \cup (IF HasType THEN {3} ELSE {})) :
+               /\ todo' = (CASE k = 0 -> <<>> [] k = 1 -> <<NT("BINDER")>> [] k = 2 -> <<NT("BINDER"), T(","), NT("BINDER")>>
+                             [] k = 3 -> <<NT("BINDER"), T(":"), NT("TYPEREF")>>) \o Rest
                /\ UNCHANGED <<out, frames, pending, budget>>
+       \* symbols of the module's own record type
+       [] h.s = "NEEDTYPE" -> /\ HasType /\ todo' = Rest /\ UNCHANGED <<out, frames, pending, budget>>
+       [] h.s = "DECL" -> /\ Emit(Tok(h.x, "def", TypeBase + h.n, {})) /\ todo' = Rest /\ UNCHANGED <<frames, pending, budget>>
+       [] h.s = "TYPEREF" -> /\ Emit(Tok("T", "tref", TypeBase, {})) /\ todo' = Rest /\ UNCHANGED <<frames, pending, budget>>
+       [] h.s = "OWNCTOR" -> /\ Emit(Tok(h.x, IF h.n = 0 THEN "ref" ELSE "pref", CtorId(h.x), IF h.n = 0 THEN Visible ELSE {}))
+                             /\ todo' = Rest /\ UNCHANGED <<frames, pending, budget>>
+       [] h.s = "LABEL" -> /\ Emit(Tok(h.x, IF h.n = 0 THEN "label" ELSE "plabel", TypeBase + (IF h.x = "a" THEN FieldA ELSE FieldB), {}))
+                           /\ todo' = Rest /\ UNCHANGED <<frames, pending, budget>>
+       [] h.s = "FIELDREF" -> /\ Emit(Tok(h.x, "field", TypeBase + (IF h.x = "a" THEN FieldA ELSE FieldB), {}))
+                              /\ todo' = Rest /\ UNCHANGED <<frames, pending, budget>>
        [] h.s = "MARK" -> /\ frames' = Append(frames, Mark) /\ todo' = Rest /\ UNCHANGED <<out, pending, budget>>
        [] h.s = "POPMARK" -> /\ frames' = PopToMark(frames) /\ todo' = Rest /\ UNCHANGED <<out, pending, budget>>
        \* patterns nest (a let initialiser may contain a case): the binders being collected form a stack
@@ -253,9 +285,12 @@ Done == phase = "body" /\ todo = <<>>
 \* name (an occurrence through an import alias keeps its spelling).  Library declarations are declared in m2.
 DeclName(d) == IF d = LibValues.a THEN "a" ELSE IF d = LibValues.c THEN "c" ELSE IF d = LibValues.A THEN "A"
                ELSE IF d = LibValues.C THEN "C" ELSE IF d = LibValues.k THEN "k"
+               ELSE IF d > ItemBase + FieldB THEN "b" ELSE IF d > ItemBase + FieldA THEN "a"
+               ELSE IF d > ItemBase + CtorU THEN "U" ELSE IF d > ItemBase + CtorT THEN "T"
                ELSE IF d > ItemBase THEN items[d - ItemBase].n ELSE out[d].t
-DeclIds == {out[i].tg : i \in {j \in 1..Len(out) : out[j].r \in {"def", "spreaddef", "ref", "qref", "impname"} /\ out[j].tg # 0}}
-RenameSet(d) == {i \in 1..Len(out) : /\ out[i].r \in {"def", "spreaddef", "ref", "qref", "impname", "altdef"}
+RefRoles == {"def", "spreaddef", "ref", "qref", "impname", "pref", "label", "plabel", "field", "tref"}
+DeclIds == {out[i].tg : i \in {j \in 1..Len(out) : out[j].r \in RefRoles /\ out[j].tg # 0}}
+RenameSet(d) == {i \in 1..Len(out) : /\ out[i].r \in RefRoles \cup {"altdef"}
                                       /\ out[i].tg = d /\ out[i].t = DeclName(d)}
 Renames == {[d |-> d, name |-> DeclName(d), toks |-> RenameSet(d)] : d \in DeclIds}
 
